@@ -615,7 +615,8 @@ func NearValid(j int) string {
 		bad = fmt.Sprintf("r7 := %s\nprint r7", t)
 	case 8: // procedures and nothing used as values
 		t := []string{"r8 := cls\nprint r8", "r8 := (print 1)\nprint r8", "print (cls)", "r8 := [1 (cls)]\nprint r8 (len r8)", "r8 := {a:(cls)}\nprint r8", "an = an + [(clear)]", "x = (sleep 0)", "func p0\n    print 0\nend\nr8 := p0\nprint r8", "func p1\n    print 0\nend\nx = (p1)", "n = n + (p2)\nfunc p2\n    print 0\nend",
-			"r8 := [(print 1)]\nprint r8", "print [(cls)] {a:(clear)}", "func p3\n    print 0\nend\nr8 := [(p3) (p3)]\nprint r8 (typeof r8)", "r8 := [[(cls)]]\nprint r8", "ax = [1 (cls)]", "mx = {a:(print 1)}", "for e8 := range [(cls)]\n    print e8\nend", "print (len [(cls)]) (typeof {a:(cls)})"}[k%18]
+			"r8 := [(print 1)]\nprint r8", "print [(cls)] {a:(clear)}", "func p3\n    print 0\nend\nr8 := [(p3) (p3)]\nprint r8 (typeof r8)", "r8 := [[(cls)]]\nprint r8", "ax = [1 (cls)]", "mx = {a:(print 1)}", "for e8 := range [(cls)]\n    print e8\nend", "print (len [(cls)]) (typeof {a:(cls)})",
+			"func p4\n    return\nend\nb = (p4) == (p4)", "b = (cls) == (cls)", "if (print 1) != (print 2)\n    print 3\nend", "func p5\n    print 0\nend\nwhile (p5) == (p5)\n    break\nend", "print ((clear) == (cls)) ((p6) != (p6))\nfunc p6\n    return\nend"}[k%23]
 		bad = t
 	case 9: // unary operators
 		bad = fmt.Sprintf("r9 := %s%s\nprint r9", []string{"-", "!"}[k%2], []string{"s", "b", "an", "mn", "x", "n", "as", "ax"}[(k/2)%8])
